@@ -42,7 +42,7 @@ def check_case(drv, r, stats, asis=ASIS, spec=SPEC):
                 break
             req = carvecase.carve_request(ds, cfg, f, labs, Xd, Xd_dev, kind, flags)
             req["impl"] = impl
-            res = drv.call(req)
+            res = carvecase.call_carve(drv, req, stats)
             if name == "as-is" or True:
                 stats["model_outcomes"][res["outcome"]] = stats["model_outcomes"].get(res["outcome"], 0) + 1
                 if res["outcome"] == "results" and len(res["results"]) > 1:
@@ -58,11 +58,16 @@ def check_case(drv, r, stats, asis=ASIS, spec=SPEC):
 
 def gen(rng):
     target = rng.choice(["binary", "binary", "continuous"])
+    crafted = rng.random() < 0.3
     for _ in range(20):
-        ds = fitgen.gen_dataset(rng, target=target)
+        ds = fitgen.gen_crafted(rng, target=target) if crafted else fitgen.gen_dataset(rng, target=target)
         if ds["ok_target"]:
             break
     cfg = fitgen.gen_config(rng, target)
+    if crafted:
+        # small min_freq so that the crafted modalities survive the base discretization; thresholds on the size grid
+        cfg["min_freq"] = rng.choice([0.02, 0.05])
+        cfg["min_freq_mod"] = rng.choice([None, 0.05, 0.1, 0.125, 0.2, 0.25])
     return {"ds": ds, "meta": {"what": "carver", "target": target, "cfg": cfg, "kinds": ds["kinds"], "n": len(ds["X"]),
                                "dev": ds["X_dev"] is not None}}
 
